@@ -1107,6 +1107,10 @@ func genC18SH(rng *rand.Rand) string {
 		}
 	}
 	n := pick(rng, 0, 1, 2, 3, 3, 4, 5, rng.IntN(9))
+	if rng.IntN(40) == 0 {
+		// many services (storage that grows in steps, batches, per-service goroutines)
+		n = pick(rng, 16, 17, 32, 33, 64, 65, 100)
+	}
 	outs := make([]byte, n)
 	mode := rng.IntN(5)
 	for i := range outs {
